@@ -112,7 +112,9 @@ def parseUnits (j : Json) : Array (Bytes × Option Frame) :=
 
 def parseIOErr (kind tag : Json) : IOErr :=
   match str kind with
+  | "eof" => .eof                       -- io.EOF itself
   | "timeout" => .timeout (str tag)
+  | "deadline" => .timeout "deadline"   -- *net.OpError wrapping os.ErrDeadlineExceeded
   | "fail" => .fail (str tag)
   | _ => .ok
 
@@ -131,7 +133,12 @@ def mkCalls (rbytes wbytes : Bytes) : Cur → List Json → List Call
       | "r", [n, kind, tag] =>
         Call.read ((rbytes.drop c.r).take (nat n)) (parseIOErr kind tag) :: mkCalls rbytes wbytes { c with r := c.r + nat n } js
       | "w", [n, kind, tag] =>
-        Call.write ((wbytes.drop c.w).take (nat n)) (parseIOErr kind tag) :: mkCalls rbytes wbytes { c with w := c.w + nat n } js
+        let d := (wbytes.drop c.w).take (nat n)
+        let e := parseIOErr kind tag
+        Call.write d (if e == .ok then d.length else d.length / 2) e :: mkCalls rbytes wbytes { c with w := c.w + nat n } js
+      | "w", [n, kind, tag, wn] =>
+        let d := (wbytes.drop c.w).take (nat n)
+        Call.write d (min (nat wn) d.length) (parseIOErr kind tag) :: mkCalls rbytes wbytes { c with w := c.w + nat n } js
       | "c", [kind, tag] => Call.close (parseIOErr kind tag) :: mkCalls rbytes wbytes c js
       | "t", _ => Call.timers :: mkCalls rbytes wbytes c js
       | _, _ => mkCalls rbytes wbytes c js
@@ -161,6 +168,8 @@ def ioLost (e : IOErr) (closing : Bool) : List WEv :=
   | .fail t, true => [WEv.lost (.closed t)]
   | .fail t, false => [WEv.lost (.io t)]
   | .timeout _, false => []
+  | .eof, true => [WEv.lost (.closed "EOF")]
+  | .eof, false => [WEv.lost (.io "EOF")]
 
 def wireEvents (isServer : Bool) : WCur → WCur → List Json → List WEv
   | _, _, [] => []
@@ -171,7 +180,8 @@ def wireEvents (isServer : Bool) : WCur → WCur → List Json → List WEv
       | "r", [n, kind, tag] =>
         let a := advance isServer rc (nat n)
         a.2 ++ ioLost (parseIOErr kind tag) false ++ wireEvents isServer a.1 wc js
-      | "w", [n, kind, tag] =>
+      | "w", n :: kind :: tag :: _ =>
+        -- the whole argument of Write counts as written (see checks/C15.json), whatever the count returned
         let a := advance (!isServer) wc (nat n)
         let e := parseIOErr kind tag
         a.2 ++ (match e with | .timeout t => [WEv.lost (.io t)] | _ => ioLost e false) ++ wireEvents isServer rc a.1 js
